@@ -171,11 +171,14 @@ def _depth():
 def _enter(p, kind, k, isg, kw):
     R = RUN
     key = (p, kind, k)
-    n = R.count.get(key, 0)
-    R.count[key] = n + 1
+    m = kw.get("machine")
+    # call counters are per machine (a clone continues the call history of its original)
+    tags = getattr(R, "tags", None)
+    tag = tags.get(id(getattr(m, "model", None)), 0) if tags else 0
+    n = R.count.get((tag,) + key, 0)
+    R.count[(tag,) + key] = n + 1
     scripts, dflt = R.tbl.get(key, ([], DEFAULT_SCRIPT))
     script = scripts[n] if n < len(scripts) else dflt
-    m = kw.get("machine")
     R.log.append(["c", p, kind, k, bool(isg), evidx(kw.get("event")), sidx(kw.get("source")),
                   sidx(kw.get("target")), sidx(kw.get("state")), R.csv(m), kw.get("tag", 0) or 0,
                   0 if isg else _depth()])
@@ -253,13 +256,18 @@ def render_source(sc):
     out = ["from statemachine import State, StateMachine",
            "from harness.eng import _cb, _acb", ""]
 
+    inst = []
+
     def methods(p, attrs, ind="    "):
         ls = []
         for nm in attrs:
             kind, k = nm
             isg = tuple(nm) in gn
             if kind == 0 and k >= 500:
-                ls.append(f"{ind}{cbname(nm)} = None      # a plain attribute: its value is assigned after attachment")
+                if p == 0 and sc.get("inst_attrs"):
+                    inst.append(cbname(nm))       # exists on the instance only (set in __init__)
+                else:
+                    ls.append(f"{ind}{cbname(nm)} = None      # a plain attribute: its value is assigned after attachment")
                 continue
             if (p, kind, k) in acoros:
                 ls.append(f"{ind}async def {cbname(nm)}(self, **kw): return await _acb({p}, {kind}, {k}, {isg}, kw)")
@@ -320,6 +328,11 @@ def render_source(sc):
             out.append(f"    {evname(e)} = " + " | ".join(f"tr{j}" for j, t in enumerate(sc["trans"]) if e in t["ev"]))
         out.append("    del " + ", ".join(f"tr{j}" for j in range(len(sc["trans"]))))
     out += methods(0, sc["provs"][0])
+    if inst:
+        out.append("    def __init__(self, *a, **k):")
+        for name in inst:
+            out.append(f"        self.{name} = None      # a per-instance attribute used as guard")
+        out.append("        super().__init__(*a, **k)")
     if sc.get("falsy_machine"):
         out.append("    def __len__(self): return 0      # a machine that evaluates as false")
     out.append("")
@@ -664,6 +677,7 @@ def cq_scenario(sc):
         ops.append({"send": lambda o: f"OSend {o[1]} {o[2]}", "activate": lambda o: "OActivate",
                     "call": lambda o: f"OSend {o[2]} {o[3]}",
                     "add": lambda o: "OAdd [" + "; ".join(map(str, o[1])) + "]",
+                    "clone": lambda o: "OClone",
                     "construct": lambda o: "OConstruct", "write": lambda o: f"OWrite {o[1]}"}[op[0]](op))
     fuel = 6 + total_sends(sc) + len(sc["ops"])
     return (f"(mkSc {md} [{'; '.join(tbl)}] {cq_opt(sc.get('field0'))} [{'; '.join(ops)}] {fuel})")
